@@ -10,7 +10,7 @@ META = {
     "units": ["include/librfn/protothreads.h (the macros, expanded in generated protothread bodies)"],
     "bounds": {"quick": "10 hand-picked + 14 generated programs (statement count <= 5, nesting <= 2, for-limits <= 3, children to depth 2), "
                         "each for EVERY tape of 5 condition bits; invoked until exit",
-               "thorough": "10 hand-picked + 60 generated programs (statement count <= 7, nesting <= 3), every tape of 8 condition bits"},
+               "thorough": "10 hand-picked + 30 generated programs (statement count <= 6, nesting <= 3), every tape of 6 condition bits"},
     "outside": ["programs outside the generated set - the quantifier over programs is sampled by a grammar-driven generator (program text cannot be a solver "
                 "variable: the macros work through __LINE__ and switch); what the solver covers exhaustively is every data-dependent path of each program",
                 "non-persistent locals across blocking points, re-invocation after exit without PT_INIT, several blocking macros on one line (property scope)"],
